@@ -569,12 +569,28 @@ impl Outcome {
     }
 }
 
-/// Register the libraries one after the other on a fresh runtime; stops at the
-/// first that does not succeed.
-fn run_impl(libs: &[Vec<It>]) -> (Vec<Outcome>, Option<Runtime<NoCtx>>) {
+/// what `Runtime::types()/functions()/constants()` hold (public getters): a rejected add must not change them
+fn getter_counts(rt: &Runtime<NoCtx>) -> (usize, usize, usize) {
+    (rt.types().len(), rt.functions().len(), rt.constants().len())
+}
+
+struct ImplRun {
+    outs: Vec<Outcome>,
+    /// the runtime after the last add (None after a panic: the host is gone)
+    rt: Option<Runtime<NoCtx>>,
+    /// (index of a rejected add, what the public getters show before -> after it)
+    leftovers: Vec<(usize, String)>,
+}
+
+/// Register the libraries one after the other on ONE fresh runtime. A rejected
+/// add is an error value the host handles: the session goes on with the same
+/// runtime (only a panic ends it).
+fn run_impl(libs: &[Vec<It>]) -> ImplRun {
     let mut outs = vec![];
+    let mut leftovers = vec![];
     let mut rt = Runtime::new();
-    for lib in libs {
+    for (k, lib) in libs.iter().enumerate() {
+        let before = getter_counts(&rt);
         let r = catch_unwind(AssertUnwindSafe(|| {
             let items = build(lib)?;
             rt.add(items)
@@ -583,15 +599,18 @@ fn run_impl(libs: &[Vec<It>]) -> (Vec<Outcome>, Option<Runtime<NoCtx>>) {
             Ok(Ok(())) => outs.push(Outcome::Ok),
             Ok(Err(e)) => {
                 outs.push(Outcome::Err(err_kind(&e).to_string()));
-                return (outs, None);
+                let after = getter_counts(&rt);
+                if after != before {
+                    leftovers.push((k, format!("(types, functions, constants) {before:?} -> {after:?}")));
+                }
             }
             Err(_) => {
                 outs.push(Outcome::Panic(PANIC_MSG.lock().map(|g| g.clone()).unwrap_or_default()));
-                return (outs, None);
+                return ImplRun { outs, rt: None, leftovers };
             }
         }
     }
-    (outs, Some(rt))
+    ImplRun { outs, rt: Some(rt), leftovers }
 }
 
 // ------------------------------------------------------------------ probes
@@ -638,6 +657,7 @@ fn probe_expr(path: &[String], info: &ItemInfo) -> Option<String> {
 fn probe_fn(idx: usize, pr: &Probe) -> String {
     match pr.info.kind {
         // a type path: usable as a parameter type, and it is the marker's type
+        "type" if pr.expect.is_none() => format!("fn p{idx}(x: {}) -> u64 {{ 0 }}\n", pr.path.join(".")),
         "type" => format!("fn p{idx}(x: {}) -> u64 {{ zzget{}(x) }}\n", pr.path.join("."), pr.info.marker),
         _ => format!("fn p{idx}() -> u64 {{ {} }}\n", probe_expr(&pr.path, &pr.info).unwrap()),
     }
@@ -719,6 +739,8 @@ fn model_seen(res: &str, pr: &Probe, by_tag: &BTreeMap<u64, ItemInfo>) -> Seen {
             let t = tag.unwrap_or(0);
             match by_tag.get(&t) {
                 Some(i) if i.shape == pr.info.shape => Seen::Tag(t),
+                // an item of a rejected library that the oracle's table does not list (second of two of one name)
+                None if pr.what == "failed-add" => Seen::Tag(t),
                 _ => Seen::No,
             }
         }
@@ -1195,79 +1217,121 @@ fn situation(libs: &[Vec<It>]) -> String {
 
 /// Run one session on the implementation and the model, compare with the
 /// oracle. `variants` are reorderings of the same libraries (index 0 = as given).
+///
+/// A session is a HISTORY on one runtime: a rejected add is an error the host
+/// handles, the next library goes to the same runtime. The property's oracle
+/// (and the model: `RotoV.Reg.session`) continue from the state before the
+/// rejected add — it must be as if that library had never been offered.
 fn check_session(rep: &mut Report, drv: &mut Driver, variants: &[Vec<Vec<It>>], note: &str, index: u64) -> SessionResult {
     let libs0 = &variants[0];
     let input = |v: &Vec<Vec<It>>| json!({"libs": libs_json(v), "note": note, "index": index});
     // oracle
     let mut spec = Spec::new();
-    let mut expect: Vec<&'static str> = vec![];
+    let mut expect: Vec<(&'static str, BTreeSet<Defect>)> = vec![];
     let mut defects_seen: BTreeSet<Defect> = BTreeSet::new();
+    // what the rejected libraries would have declared (path -> item)
+    let mut offered_in_vain: Vec<(Vec<String>, ItemInfo)> = vec![];
     for lib in libs0 {
         let (d, next) = spec.check(lib);
         if d.is_empty() {
-            expect.push("ok");
+            expect.push(("ok", d));
             spec = next;
         } else {
-            defects_seen.extend(d);
-            expect.push("err");
-            break;
-        }
-    }
-    let all_ok_expected = expect.iter().all(|e| *e == "ok");
-    let sit = situation(libs0);
-    let suffix = if sit.is_empty() { String::new() } else { format!(" {sit}") };
-
-    // probes from the oracle's view (only when every add should succeed)
-    let mut probes: Vec<Probe> = vec![];
-    if all_ok_expected {
-        let reach = spec.reachable();
-        let mut expected_paths: BTreeMap<Vec<String>, Vec<String>> = BTreeMap::new();
-        for (q, target, _) in &reach {
-            expected_paths.insert(q.clone(), target.clone());
-        }
-        for (q, target, nested) in &reach {
-            let info = spec.items[target].clone();
-            if !matches!(info.kind, "fn" | "method" | "const" | "type") {
-                continue;
-            }
-            // shadowing: a path whose first segment is declared at the root is the declared item
-            probes.push(Probe { path: q.clone(), info: info.clone(), expect: Some(info.tag), nested_use: *nested, what: if q == target { "declared" } else { "use" } });
-        }
-        // not reachable at undeclared paths: bare name at the root, and under a sibling module
-        let mut negs = 0;
-        for (p, info) in &spec.items {
-            if negs >= 4 || !matches!(info.kind, "fn" | "const") || p.len() < 2 {
-                continue;
-            }
-            let bare = vec![p.last().unwrap().clone()];
-            if !expected_paths.contains_key(&bare) && !spec.items.contains_key(&bare) {
-                // on this tree a use inside a module puts the name at the root (known finding)
-                let nested = spec.uses.iter().any(|((s, b), (_, n))| *n && !s.is_empty() && b == &bare[0]);
-                probes.push(Probe { path: bare, info: info.clone(), expect: None, nested_use: nested, what: "bare-at-root" });
-                negs += 1;
-            }
-            let mut wrong = p.clone();
-            wrong.remove(p.len() - 2);
-            if !expected_paths.contains_key(&wrong) && !wrong.is_empty() && !spec.items.contains_key(&wrong) {
-                let nested = wrong.len() == 1 && spec.uses.iter().any(|((s, b), (_, n))| *n && !s.is_empty() && b == &wrong[0]);
-                probes.push(Probe { path: wrong, info: info.clone(), expect: None, nested_use: nested, what: "skipped-module" });
-                negs += 1;
-            }
-        }
-        // a use inside a module must not make the name visible at the root
-        for ((scope, bound), (target, nested)) in &spec.uses {
-            if *nested && !scope.is_empty() {
-                if let Some(info) = spec.items.get(target) {
-                    let bare = vec![bound.clone()];
-                    if matches!(info.kind, "fn" | "const") && !expected_paths.contains_key(&bare) {
-                        probes.push(Probe { path: bare, info: info.clone(), expect: None, nested_use: true, what: "nested-use-at-root" });
-                    }
+            defects_seen.extend(d.iter().cloned());
+            expect.push(("err", d));
+            for (p, info) in &next.items {
+                if !spec.items.contains_key(p) {
+                    offered_in_vain.push((p.clone(), info.clone()));
                 }
             }
         }
     }
+    let sit = situation(libs0);
+    let suffix = if sit.is_empty() { String::new() } else { format!(" {sit}") };
+    // " after-failed-add": an earlier add of this session was (to be) rejected
+    let hist = |k: usize| if expect[..k.min(expect.len())].iter().any(|e| e.0 == "err") { " after-failed-add" } else { "" };
+
+    // probes from the oracle's view: everything that was accepted, at every path the property names
+    let mut probes: Vec<Probe> = vec![];
+    let reach = spec.reachable();
+    let mut expected_paths: BTreeMap<Vec<String>, Vec<String>> = BTreeMap::new();
+    for (q, target, _) in &reach {
+        expected_paths.insert(q.clone(), target.clone());
+    }
+    for (q, target, nested) in &reach {
+        let info = spec.items[target].clone();
+        if !matches!(info.kind, "fn" | "method" | "const" | "type") {
+            continue;
+        }
+        // shadowing: a path whose first segment is declared at the root is the declared item
+        probes.push(Probe { path: q.clone(), info: info.clone(), expect: Some(info.tag), nested_use: *nested, what: if q == target { "declared" } else { "use" } });
+    }
+    // not reachable at undeclared paths: bare name at the root, and under a sibling module
+    let mut negs = 0;
+    for (p, info) in &spec.items {
+        if negs >= 4 || !matches!(info.kind, "fn" | "const") || p.len() < 2 {
+            continue;
+        }
+        let bare = vec![p.last().unwrap().clone()];
+        if !expected_paths.contains_key(&bare) && !spec.items.contains_key(&bare) {
+            // on this tree a use inside a module puts the name at the root (known finding)
+            let nested = spec.uses.iter().any(|((s, b), (_, n))| *n && !s.is_empty() && b == &bare[0]);
+            probes.push(Probe { path: bare, info: info.clone(), expect: None, nested_use: nested, what: "bare-at-root" });
+            negs += 1;
+        }
+        let mut wrong = p.clone();
+        wrong.remove(p.len() - 2);
+        if !expected_paths.contains_key(&wrong) && !wrong.is_empty() && !spec.items.contains_key(&wrong) {
+            let nested = wrong.len() == 1 && spec.uses.iter().any(|((s, b), (_, n))| *n && !s.is_empty() && b == &wrong[0]);
+            probes.push(Probe { path: wrong, info: info.clone(), expect: None, nested_use: nested, what: "skipped-module" });
+            negs += 1;
+        }
+    }
+    // a use inside a module must not make the name visible at the root
+    for ((scope, bound), (target, nested)) in &spec.uses {
+        if *nested && !scope.is_empty() {
+            if let Some(info) = spec.items.get(target) {
+                let bare = vec![bound.clone()];
+                if matches!(info.kind, "fn" | "const") && !expected_paths.contains_key(&bare) {
+                    probes.push(Probe { path: bare, info: info.clone(), expect: None, nested_use: true, what: "nested-use-at-root" });
+                }
+            }
+        }
+    }
+    // nothing a rejected library offered is there (unless a later add declared that very path)
+    let mut vain = 0;
+    for (p, info) in &offered_in_vain {
+        if vain >= 8 || !matches!(info.kind, "fn" | "method" | "const" | "type") {
+            continue;
+        }
+        if expected_paths.contains_key(p) || spec.items.contains_key(p) || probes.iter().any(|q| &q.path == p) {
+            continue;
+        }
+        // a path below something a use inside a module put at the root (known finding) is not probed
+        if spec.uses.iter().any(|((s, b), (_, n))| *n && !s.is_empty() && b == &p[0]) {
+            continue;
+        }
+        // the probe expression needs the helpers of the markers it mentions
+        let needs: Option<usize> = match info.kind {
+            "const" => info.ty,
+            "type" => None,
+            _ => info.shape.marker(),
+        };
+        if let Some(m) = needs {
+            if !spec.types.contains_key(&m) {
+                continue;
+            }
+        }
+        probes.push(Probe { path: p.clone(), info: info.clone(), expect: None, nested_use: false, what: "failed-add" });
+        vain += 1;
+    }
     let queries: Vec<Vec<String>> = probes.iter().map(|p| p.path.clone()).collect();
-    let by_tag: BTreeMap<u64, ItemInfo> = spec.items.values().filter(|i| i.tag != 0).map(|i| (i.tag, i.clone())).collect();
+    let mut by_tag: BTreeMap<u64, ItemInfo> = spec.items.values().filter(|i| i.tag != 0).map(|i| (i.tag, i.clone())).collect();
+    for (_, i) in &offered_in_vain {
+        if i.tag != 0 {
+            by_tag.entry(i.tag).or_insert_with(|| i.clone());
+        }
+    }
     let markers: BTreeSet<usize> = spec.types.keys().cloned().collect();
 
     let mut first: Option<(Vec<&'static str>, Vec<Seen>)> = None;
@@ -1275,8 +1339,8 @@ fn check_session(rep: &mut Report, drv: &mut Driver, variants: &[Vec<Vec<It>>], 
     let mut sample = J::Null;
     for (vi, libs) in variants.iter().enumerate() {
         rep.evaluations += 1;
-        let (outs, rt) = run_impl(libs);
-        let (mouts, mres) = run_model(drv, "0000", libs, &queries);
+        let ImplRun { outs, rt, leftovers } = run_impl(libs);
+        let (mouts, mres) = run_model(drv, &model_cfg(), libs, &queries);
         // --- implementation vs model: outcomes (kind of error included)
         let show = |o: &[Outcome]| o.iter().map(|x| match x { Outcome::Panic(_) => "panic".to_string(), y => y.show() }).collect::<Vec<_>>().join(" ");
         if show(&outs) != show(&mouts) {
@@ -1285,14 +1349,14 @@ fn check_session(rep: &mut Report, drv: &mut Driver, variants: &[Vec<Vec<It>>], 
         // --- implementation vs oracle: outcomes
         let classes: Vec<&'static str> = outs.iter().map(|o| o.class()).collect();
         for (k, o) in outs.iter().enumerate() {
-            let want = expect.get(k).copied().unwrap_or("ok");
+            let (want, defects) = expect.get(k).cloned().unwrap_or(("ok", BTreeSet::new()));
             match (o, want) {
                 (Outcome::Panic(m), _) => {
-                    let key = format!("panic add{}", if suffix.is_empty() { format!(" {}", m.split(':').next().unwrap_or("")) } else { suffix.clone() });
-                    rep.violation(&format!("Runtime::add panicked: {m}"), &key, input(libs));
+                    let key = format!("panic add{}{}", if suffix.is_empty() { format!(" {}", m.split(':').next().unwrap_or("")) } else { suffix.clone() }, hist(k));
+                    rep.violation(&format!("Runtime::add panicked (add {k}): {m}"), &key, input(libs));
                 }
                 (Outcome::Ok, "err") => {
-                    let d = defects_seen.iter().next().cloned();
+                    let d = defects.iter().next().cloned();
                     let key = match d {
                         Some(Defect::InvalidName) => "accepted-invalid-name",
                         Some(Defect::NameTaken) => "accepted-taken-name",
@@ -1300,41 +1364,49 @@ fn check_session(rep: &mut Report, drv: &mut Driver, variants: &[Vec<Vec<It>>], 
                         Some(Defect::EmptyUsePath) => "accepted-empty-use-path",
                         _ => "accepted-unregistered-type",
                     };
-                    rep.violation(&format!("library with defect {:?} was accepted ({note})", defects_seen), &format!("{key}{suffix}"), input(libs));
+                    rep.violation(&format!("add {k}: library with defect {:?} was accepted ({note})", defects), &format!("{key}{suffix}{}", hist(k)), input(libs));
                 }
                 (Outcome::Err(kind), "ok") => {
-                    rep.violation(&format!("library without any of the four defects was rejected: {kind}"), &format!("rejected-valid {kind}{suffix}"), input(libs));
+                    rep.violation(&format!("add {k}: library without any of the four defects was rejected: {kind}"), &format!("rejected-valid {kind}{suffix}{}", hist(k)), input(libs));
                 }
                 _ => {}
             }
         }
+        // --- a rejected add leaves the runtime as it was (what the public getters show)
+        for (k, what) in &leftovers {
+            rep.violation(&format!("add {k} was rejected ({}) but changed the runtime: {what}", outs[*k].show()), &format!("state-after-failed-add getters {}", outs[*k].show()), input(libs));
+        }
         // --- reachability
         let mut seen: Vec<Seen> = vec![];
         if let Some(mut rt) = rt {
-            if all_ok_expected {
-                let h = catch_unwind(AssertUnwindSafe(|| rt.add(helpers(&markers))));
-                if !matches!(h, Ok(Ok(()))) {
-                    rep.mismatch("helper functions could not be registered", input(libs));
-                } else {
-                    seen = run_probes(&rt, &probes);
-                    for ((pr, s), m) in probes.iter().zip(&seen).zip(&mres) {
-                        let ms = model_seen(m, pr, &by_tag);
-                        if *s != ms {
-                            rep.mismatch(&format!("path {} ({}): implementation {:?}, model {:?} ({m})", pr.path.join("."), pr.what, s, ms), input(libs));
-                        }
-                        let nest = if pr.nested_use { " use-in-module" } else { "" };
-                        match (pr.expect, s) {
-                            (_, Seen::Panic) => rep.violation(&format!("compiler panicked on a script using {}", pr.path.join(".")), &format!("panic compile{nest}"), input(libs)),
-                            (Some(t), Seen::Tag(x)) if *x == t => {}
-                            (Some(_), Seen::TypeOk) => {}
-                            (Some(t), other) => rep.violation(
-                                &format!("item with tag {t} ({}) not usable at its {} path {}: {:?}", pr.info.kind, pr.what, pr.path.join("."), other),
-                                &format!("unreachable-at-declared-path {}{nest}{}", pr.what, if nest.is_empty() && pr.what == "use" && sit == "use-path-3plus" { " use-path-3plus" } else { "" }), input(libs)),
-                            (None, Seen::No) => {}
-                            (None, other) => rep.violation(
-                                &format!("item is usable at the undeclared path {} ({}): {:?}", pr.path.join("."), pr.what, other),
-                                &format!("reachable-at-wrong-path {}{nest}", pr.what), input(libs)),
-                        }
+            let h = catch_unwind(AssertUnwindSafe(|| rt.add(helpers(&markers))));
+            if !matches!(h, Ok(Ok(()))) {
+                // the helpers mention registered types only and use reserved names
+                rep.violation("the helper functions over the registered types were rejected", &format!("rejected-valid helpers{}", hist(libs.len())), input(libs));
+            } else {
+                seen = run_probes(&rt, &probes);
+                for ((pr, s), m) in probes.iter().zip(&seen).zip(&mres) {
+                    let ms = model_seen(m, pr, &by_tag);
+                    if *s != ms {
+                        rep.mismatch(&format!("path {} ({}): implementation {:?}, model {:?} ({m})", pr.path.join("."), pr.what, s, ms), input(libs));
+                    }
+                    let nest = if pr.nested_use { " use-in-module" } else { "" };
+                    // (the open finding about a use inside a module keeps its keys whatever the history)
+                    let hist = |k: usize| if pr.nested_use { "" } else { hist(k) };
+                    match (pr.expect, s) {
+                        (_, Seen::Panic) => rep.violation(&format!("compiler panicked on a script using {}", pr.path.join(".")), &format!("panic compile{nest}{}", hist(libs.len())), input(libs)),
+                        (Some(t), Seen::Tag(x)) if *x == t => {}
+                        (Some(_), Seen::TypeOk) => {}
+                        (Some(t), other) => rep.violation(
+                            &format!("item with tag {t} ({}) not usable at its {} path {}: {:?}", pr.info.kind, pr.what, pr.path.join("."), other),
+                            &format!("unreachable-at-declared-path {}{nest}{}{}", pr.what, if nest.is_empty() && pr.what == "use" && sit == "use-path-3plus" { " use-path-3plus" } else { "" }, hist(libs.len())), input(libs)),
+                        (None, Seen::No) => {}
+                        (None, other) if pr.what == "failed-add" => rep.violation(
+                            &format!("{} of a REJECTED library is usable from a script at {}: {:?}", pr.info.kind, pr.path.join("."), other),
+                            &format!("state-after-failed-add reachable {}", pr.info.kind), input(libs)),
+                        (None, other) => rep.violation(
+                            &format!("item is usable at the undeclared path {} ({}): {:?}", pr.path.join("."), pr.what, other),
+                            &format!("reachable-at-wrong-path {}{nest}{}", pr.what, hist(libs.len())), input(libs)),
                     }
                 }
             }
@@ -1346,7 +1418,7 @@ fn check_session(rep: &mut Report, drv: &mut Driver, variants: &[Vec<Vec<It>>], 
                 if *c0 != classes || (*s0 != seen && !s0.is_empty() && !seen.is_empty()) {
                     rep.violation(
                         &format!("reordering the items changes the result: {:?} vs {:?}", c0, classes),
-                        &format!("order-dependent{suffix}"),
+                        &format!("order-dependent{suffix}{}", hist(libs.len())),
                         json!({"libs": libs_json(libs), "first_order": libs_json(&variants[0]), "note": note, "index": index}),
                     );
                 }
@@ -1354,23 +1426,64 @@ fn check_session(rep: &mut Report, drv: &mut Driver, variants: &[Vec<Vec<It>>], 
         }
         if vi == 0 {
             let d: Vec<String> = defects_seen.iter().map(|d| format!("{d:?}")).collect();
+            // the history shape: what came after a rejected add (r = rejected, a = accepted; runs collapsed)
+            let mut shape = String::new();
+            for c in &classes {
+                let ch = match *c { "ok" => 'a', "err" => 'r', _ => 'p' };
+                if !shape.ends_with(ch) {
+                    shape.push(ch);
+                }
+            }
             class = format!(
                 "adds={} depth={} defect={} out={} uses={} probes={}",
-                libs.len(), libs.iter().map(|l| depth_of(l)).max().unwrap_or(0),
+                libs.len().min(4), libs.iter().map(|l| depth_of(l)).max().unwrap_or(0),
                 if d.is_empty() { "none".to_string() } else { d.join("+") },
-                classes.join(","), libs.iter().map(|l| max_use_len(l)).max().unwrap_or(0),
+                shape, libs.iter().map(|l| max_use_len(l)).max().unwrap_or(0),
                 probes.len().min(9),
             );
             sample = json!({"libs": libs_json(libs), "outcomes": outs.iter().map(|o| o.show()).collect::<Vec<_>>(),
                 "model": mouts.iter().map(|o| o.show()).collect::<Vec<_>>(), "probes": probes.iter().zip(&seen).map(|(p, s)| format!("{} -> {:?}", p.path.join("."), s)).collect::<Vec<_>>(), "note": note});
             rep.hist("outcome", classes.last().copied().unwrap_or("ok"));
+            rep.hist("history", shape);
             rep.hist("adds", libs.len().to_string());
             rep.hist("items", (libs.iter().map(|l| count_items(l)).sum::<usize>().min(30) / 3 * 3).to_string());
             rep.hist("depth", libs.iter().map(|l| depth_of(l)).max().unwrap_or(0).to_string());
             rep.hist("probes", probes.len().min(40).to_string());
+            rep.hist("probes of rejected items", probes.iter().filter(|p| p.what == "failed-add").count().to_string());
         }
     }
     SessionResult { class, sample }
+}
+
+/// the model's configuration: `Cfg.fixed`; a sixth bit `1` = the passes run in
+/// place on the runtime (`C18_INPLACE=1`: the tree before the repair that made
+/// `Rt::add` all-or-nothing — for checking the in-place model against that tree)
+fn model_cfg() -> String {
+    if std::env::var("C18_INPLACE").map(|v| v == "1").unwrap_or(false) { "000001".into() } else { "0000".into() }
+}
+
+/// `use` of an item that does not exist is outside the statement. A history in which an add is rejected may
+/// leave a later library with a `use` of something only the rejected library offered: those paths are dropped
+/// (from the libraries as generated, before any reordering), judged by the runtime the ORACLE says there is.
+fn sanitize(libs: &mut Vec<Vec<It>>) {
+    fn fix(items: &mut Vec<It>, next: &Spec) {
+        for it in items.iter_mut() {
+            match it {
+                It::Module { ch, .. } => fix(ch, next),
+                It::Use { paths } => paths.retain(|p| p.is_empty() || next.items.contains_key(p)),
+                _ => {}
+            }
+        }
+    }
+    let mut spec = Spec::new();
+    for lib in libs.iter_mut() {
+        let (_, next) = spec.check(lib);
+        fix(lib, &next);
+        let (d, next) = spec.check(lib);
+        if d.is_empty() {
+            spec = next;
+        }
+    }
 }
 
 fn permutations<T: Clone>(v: &[T]) -> Vec<Vec<T>> {
@@ -1392,7 +1505,7 @@ fn permutations<T: Clone>(v: &[T]) -> Vec<Vec<T>> {
 /// one generated case: a session, possibly with one injected defect, and its reorderings
 fn gen_case(seed: u64, index: u64) -> (Vec<Vec<Vec<It>>>, String) {
     let mut rng = Prng::for_case(seed, index);
-    let n_adds = 1 + rng.below(3) as usize;
+    let n_adds = 1 + rng.below(4) as usize;
     let small = index % 3 == 0;
     let nested_use = index % 11 == 5;
     let mut g = Gen { rng: &mut rng, tag: 0, used: BTreeMap::new(), types: BTreeMap::new(), targets: vec![], members: BTreeMap::new() };
@@ -1404,32 +1517,69 @@ fn gen_case(seed: u64, index: u64) -> (Vec<Vec<Vec<It>>>, String) {
     let mut tag = 5000 + g.tag;
     drop(g);
     let mut note = "well-formed".to_string();
-    // one injected defect of each kind in turn, at every position in turn
+    // one injected defect of each kind in turn, at every position in turn (mode 5: two defects, in two libraries);
+    // the history goes on after the rejected add, and the library is offered again without the defect
     let mode = index % 9;
-    if mode > 0 && mode < 5 {
-        let kind = [Defect::InvalidName, Defect::NameTaken, Defect::TypeTwice, Defect::Unregistered][(mode - 1) as usize].clone();
-        let li = rng.below(libs.len() as u64) as usize;
-        let mut spec = Spec::new();
-        for l in &libs[..li] {
-            spec = spec.check(l).1;
+    if mode > 0 && mode < 6 {
+        let clean = libs.clone();
+        let n_inj = if mode == 5 { 2 } else { 1 };
+        let mut injected: Vec<usize> = vec![];
+        for round in 0..n_inj {
+            let kind = if mode == 5 {
+                [Defect::InvalidName, Defect::NameTaken, Defect::TypeTwice, Defect::Unregistered][rng.below(4) as usize].clone()
+            } else {
+                [Defect::InvalidName, Defect::NameTaken, Defect::TypeTwice, Defect::Unregistered][(mode - 1) as usize].clone()
+            };
+            let li = rng.below(clean.len() as u64) as usize;
+            if injected.contains(&li) {
+                continue;
+            }
+            // the state the oracle says this library is added to (rejected libraries leave nothing)
+            let mut spec = Spec::new();
+            for l in &libs[..li] {
+                let (d, next) = spec.check(l);
+                if d.is_empty() {
+                    spec = next;
+                }
+            }
+            let mut pos = vec![];
+            positions(&libs[li], &mut vec![], &mut pos);
+            if !pos.is_empty() {
+                // "every position": the position is index-driven, so successive cases sweep the tree
+                let start = (index / 9) as usize % pos.len();
+                for k in 0..pos.len() {
+                    let p = &pos[(start + k) % pos.len()];
+                    tag += 1;
+                    let mut l = libs[li].clone();
+                    if let Some(what) = inject(&mut l, p, &kind, &spec, &mut rng, tag) {
+                        libs[li] = l;
+                        let n = format!("injected {what} in add {li} at {:?}", p);
+                        note = if round == 0 { n } else { format!("{note}; {n}") };
+                        injected.push(li);
+                        break;
+                    }
+                }
+            }
         }
-        let mut pos = vec![];
-        positions(&libs[li], &mut vec![], &mut pos);
-        if !pos.is_empty() {
-            // "every position": the position is index-driven, so successive cases sweep the tree
-            let start = (index / 9) as usize % pos.len();
-            for k in 0..pos.len() {
-                let p = &pos[(start + k) % pos.len()];
-                tag += 1;
-                let mut l = libs[li].clone();
-                if let Some(what) = inject(&mut l, p, &kind, &spec, &mut rng, tag) {
-                    libs[li] = l;
-                    note = format!("injected {what} in add {li} at {:?}", p);
-                    break;
+        // the rejected library again, as it was meant: straight after it, or at the end of the history
+        injected.sort();
+        let mut shift = 0;
+        for li in injected {
+            match rng.below(3) {
+                0 => {}
+                1 => {
+                    libs.insert(li + shift + 1, clean[li].clone());
+                    shift += 1;
+                    note = format!("{note}; add {li} again without the defect, straight away");
+                }
+                _ => {
+                    libs.push(clean[li].clone());
+                    note = format!("{note}; add {li} again without the defect, at the end");
                 }
             }
         }
     }
+    sanitize(&mut libs);
     // reorderings
     let mut variants = vec![libs.clone()];
     let total: usize = libs.iter().map(|l| count_items(l)).sum();
@@ -1471,7 +1621,13 @@ fn usei(p: &[&[&str]]) -> It {
 }
 
 /// boundary table: the witnesses of the known defects and a few hand-made shapes
-fn fixed_cases() -> Vec<(Vec<Vec<It>>, &'static str)> {
+fn fixed_cases() -> Vec<(Vec<Vec<It>>, String)> {
+    let mut v: Vec<(Vec<Vec<It>>, String)> = boundary_cases().into_iter().map(|(l, n)| (l, n.to_string())).collect();
+    v.extend(history_cases());
+    v
+}
+
+fn boundary_cases() -> Vec<(Vec<Vec<It>>, &'static str)> {
     let t = |n: &str, m: usize| It::Type { name: s(n), m };
     vec![
         (vec![vec![module("a", vec![module("b", vec![f("c", 7)])]), usei(&[&["a", "b", "c"]])]], "witness: use a::b::c"),
@@ -1507,6 +1663,124 @@ fn fixed_cases() -> Vec<(Vec<Vec<It>>, &'static str)> {
             It::Fn { name: s("mr"), shape: Shape::S7(1), tag: 26 }, It::Fn { name: s("ml"), shape: Shape::S8(1), tag: 27 }] }]], "composite signatures on methods of a type in a module, impl at the root"),
         (vec![vec![It::Fn { name: s("fv"), shape: Shape::S6(2), tag: 28 }]], "composite signature mentioning an unregistered type"),
     ]
+}
+
+
+// ------------------------------------------------------------------ histories with rejected adds
+
+/// Class representatives of HISTORIES on one runtime in which an add is
+/// rejected and the host goes on: failure kind x kind of the failing item x
+/// what is added next, then the rejected library again with the one defect
+/// repaired, then a library that uses everything. The rejected library carries
+/// bystanders of every item kind (a module with members, a type, a function and
+/// a constant over that type, an impl block, a use), none of them defective, so
+/// that whatever an add inserts before it gives up is visible afterwards: the
+/// retry names them all again.
+fn history_cases() -> Vec<(Vec<Vec<It>>, String)> {
+    let t = |n: &str, m: usize| It::Type { name: s(n), m };
+    let k = |n: &str, ty: TyRef, tag: u64| It::Const { name: s(n), ty, tag };
+    let fs = |n: &str, shape: Shape, tag: u64| It::Fn { name: s(n), shape, tag };
+    // what exists before: names to clash with, a registered type (M7) with members
+    let pre = vec![
+        f("pre_f", 201),
+        module("pre_m", vec![f("x", 202)]),
+        t("PT", 7),
+        It::Impl { ty: Some(7), ch: vec![f("pre_sm", 203), k("PIK", None, 204)] },
+        k("PRE_K", None, 205),
+        module("pre_u", vec![f("pu", 206)]),
+        usei(&[&["pre_u", "pu"]]),
+    ];
+    let bystanders = || vec![
+        module("bm", vec![f("bmf", 301), k("BMK", None, 302), module("bmm", vec![f("deep", 307)])]),
+        t("BT", 4),
+        fs("bf", Shape::S1(4), 303),
+        k("BK", Some(4), 304),
+        It::Impl { ty: Some(4), ch: vec![f("bsm", 305), k("BIK", None, 306)] },
+        usei(&[&["bm", "bmf"]]),
+    ];
+    // (what fails, the defective items, the same items with the defect repaired)
+    let m7 = |ch: Vec<It>| It::Impl { ty: Some(7), ch };
+    let subjects: Vec<(&str, Vec<It>, Vec<It>)> = vec![
+        // ---- a name already taken
+        ("taken: type named like a primitive (String)", vec![t("String", 0)], vec![t("Subj", 0)]),
+        ("taken: type named like a primitive (bool)", vec![t("bool", 0)], vec![t("Subj", 0)]),
+        ("taken: type named like a function of an earlier add", vec![t("pre_f", 0)], vec![t("Subj", 0)]),
+        ("taken: type named like a module of an earlier add", vec![t("pre_m", 0)], vec![t("Subj", 0)]),
+        ("taken: type named like a type of an earlier add", vec![t("PT", 0)], vec![t("Subj", 0)]),
+        ("taken: type in a module named like a primitive of the root", vec![module("sm", vec![t("u32", 0), t("u32", 1)])], vec![module("sm", vec![t("u32", 0), t("Other", 1)])]),
+        ("taken: function named like a function of an earlier add", vec![f("pre_f", 401)], vec![f("subj_f", 401)]),
+        ("taken: function named like a type of an earlier add", vec![f("PT", 401)], vec![f("subj_f", 401)]),
+        ("taken: two functions of one name", vec![f("twice", 401), f("twice", 402)], vec![f("twice", 401), f("twice2", 402)]),
+        ("taken: constant named like a constant of an earlier add", vec![k("PRE_K", None, 401)], vec![k("SUBJ_K", None, 401)]),
+        ("taken: constant named like a function of the same library", vec![k("bf", None, 401)], vec![k("SUBJ_K", None, 401)]),
+        ("taken: module named like a function of an earlier add", vec![module("pre_f", vec![f("y", 401)])], vec![module("subj_m", vec![f("y", 401)])]),
+        ("taken: module declared again", vec![module("pre_m", vec![f("y", 401)])], vec![module("subj_m", vec![f("y", 401)])]),
+        ("taken: nested module next to a function of its name", vec![module("o", vec![f("i", 401), module("i", vec![f("y", 402)])])], vec![module("o", vec![f("i", 401), module("i2", vec![f("y", 402)])])]),
+        ("taken: method named like a method of an earlier add", vec![m7(vec![f("pre_sm", 401)])], vec![m7(vec![f("subj_sm", 401)])]),
+        ("taken: constant of an impl block named like a method of an earlier add", vec![m7(vec![k("pre_sm", None, 401)])], vec![m7(vec![k("SUBJ_IK", None, 401)])]),
+        ("taken: use binds a name a use of an earlier add bound", vec![module("su", vec![f("pu", 401)]), usei(&[&["su", "pu"]])], vec![module("su", vec![f("pu2", 401)]), usei(&[&["su", "pu2"]])]),
+        ("taken: one use binds a name twice", vec![module("su", vec![f("bmf", 401)]), usei(&[&["su", "bmf"]])], vec![module("su", vec![f("bmf2", 401)]), usei(&[&["su", "bmf2"]])]),
+        // ---- a Rust type registered twice
+        ("type twice: the type of an earlier add", vec![t("Again", 7)], vec![t("Subj", 0)]),
+        ("type twice: within the library", vec![t("One", 0), module("sm", vec![t("Two", 0)])], vec![t("One", 0), module("sm", vec![t("Two", 1)])]),
+        ("type twice: a bystander's type", vec![module("sm", vec![t("Again", 4)])], vec![module("sm", vec![t("Subj", 0)])]),
+        // ---- an unregistered type mentioned
+        ("unregistered: function parameter", vec![fs("subj_f", Shape::S1(1), 401)], vec![t("S1T", 1), fs("subj_f", Shape::S1(1), 401)]),
+        ("unregistered: function result", vec![fs("subj_f", Shape::S3(1), 401)], vec![t("S1T", 1), fs("subj_f", Shape::S3(1), 401)]),
+        ("unregistered: inside Option / Verdict / List", vec![fs("so", Shape::S2(1), 401), fs("sv", Shape::S6(1), 402), fs("sl", Shape::S8(1), 403)], vec![t("S1T", 1), fs("so", Shape::S2(1), 401), fs("sv", Shape::S6(1), 402), fs("sl", Shape::S8(1), 403)]),
+        ("unregistered: function in a nested module", vec![module("o", vec![module("i", vec![fs("subj_f", Shape::S4(1), 401)])])], vec![t("S1T", 1), module("o", vec![module("i", vec![fs("subj_f", Shape::S4(1), 401)])])]),
+        ("unregistered: constant", vec![k("SUBJ_K", Some(1), 401)], vec![t("S1T", 1), k("SUBJ_K", Some(1), 401)]),
+        ("unregistered: impl block", vec![It::Impl { ty: Some(1), ch: vec![f("subj_sm", 401)] }], vec![t("S1T", 1), It::Impl { ty: Some(1), ch: vec![f("subj_sm", 401)] }]),
+        ("unregistered: method signature", vec![m7(vec![fs("subj_sm", Shape::S1(1), 401)])], vec![t("S1T", 1), m7(vec![fs("subj_sm", Shape::S1(1), 401)])]),
+        ("unregistered: constant of an impl block", vec![m7(vec![k("SUBJ_IK", Some(1), 401)])], vec![t("S1T", 1), m7(vec![k("SUBJ_IK", Some(1), 401)])]),
+        // ---- a name that is not an identifier (the item constructor rejects it: the library never reaches the runtime)
+        ("invalid name: function", vec![f("a b", 401)], vec![f("a_b", 401)]),
+        ("invalid name: keyword as a module name", vec![module("filter", vec![f("y", 401)])], vec![module("filter_", vec![f("y", 401)])]),
+        ("invalid name: type", vec![t("1x", 0)], vec![t("x1", 0)]),
+        ("invalid name: constant of an impl block", vec![m7(vec![k("true", None, 401)])], vec![m7(vec![k("true_", None, 401)])]),
+        // ---- not one of the four, an error all the same
+        ("empty use path", vec![usei(&[&[]])], vec![]),
+    ];
+    // what is added between the rejected add and the retry
+    //  A: another type with items over it (takes the place the rejected type would have had)
+    let next_a = vec![t("NT", 6), fs("nf", Shape::S1(6), 501), k("NK", Some(6), 502), It::Impl { ty: Some(6), ch: vec![f("nsm", 503), fs("nme", Shape::S4(6), 504)] }, fs("nmk", Shape::S3(6), 505)];
+    //  B: one library each that mentions a type only the rejected library offered (bystander M4, subject M0): a
+    //     signature, a constant, an impl block — every one must be rejected in turn
+    let next_b: Vec<Vec<It>> = vec![
+        vec![fs("mb", Shape::S1(4), 511)],
+        vec![fs("ms", Shape::S2(0), 512)],
+        vec![k("MK", Some(0), 513)],
+        vec![It::Impl { ty: Some(0), ch: vec![f("msm", 514)] }],
+        vec![module("mm", vec![k("MMK", Some(4), 515)])],
+    ];
+    // afterwards: a library that uses what the retry registered
+    let last = vec![fs("lf", Shape::S4(4), 521), It::Impl { ty: Some(4), ch: vec![fs("lme", Shape::S1(4), 522)] }, usei(&[&["bm", "bmm", "deep"]]), fs("l6", Shape::S2(6), 523), t("LT", 6)];
+    let mut out = vec![];
+    for (what, bad, good) in subjects {
+        let mut failing = bystanders();
+        failing.extend(bad.clone());
+        let mut retry = bystanders();
+        retry.extend(good.clone());
+        // M6 is registered by `next_a` or, where that is not part of the history, by `last` (its type item LT)
+        let last_without_lt: Vec<It> = last.iter().filter(|i| !matches!(i, It::Type { .. })).cloned().collect();
+        // 1: rejected, straight away again
+        out.push((vec![pre.clone(), failing.clone(), retry.clone(), last.clone()], format!("history: {what}; retry")));
+        // 2: rejected, another type is registered, again
+        out.push((vec![pre.clone(), failing.clone(), next_a.clone(), retry.clone(), last_without_lt.clone()], format!("history: {what}; another type; retry")));
+        // 3: rejected, another type, libraries that mention what the rejected one offered, again
+        let mut h = vec![pre.clone(), failing.clone(), next_a.clone()];
+        h.extend(next_b.iter().cloned());
+        h.push(retry.clone());
+        h.push(last_without_lt.clone());
+        out.push((h, format!("history: {what}; another type; its types mentioned; retry")));
+    }
+    // the rejected library alone (no bystanders): the shape of a host that registers one item at a time
+    out.push((vec![vec![t("String", 0)], vec![t("Seconds", 1), fs("seconds", Shape::S3(1), 601)], vec![fs("to_u64", Shape::S1(0), 602)]], s("history: one type rejected for its name, another registered, the first mentioned")));
+    out.push((vec![vec![t("bool", 0)], vec![t("Seconds", 1)], vec![t("Meters", 0), fs("meters", Shape::S3(0), 603), fs("value", Shape::S1(0), 604)]], s("history: one type rejected for its name, another registered, the first again under a free name")));
+    out.push((vec![vec![fs("g", Shape::S1(2), 605)], vec![t("G", 2)], vec![fs("g", Shape::S1(2), 605)]], s("history: a function rejected for its type, the type registered, the function again")));
+    out.push((vec![vec![f("u64", 606)], vec![f("u64_", 606)], vec![f("u64", 607)]], s("history: a function named like a primitive, twice")));
+    out.push((vec![vec![t("A", 0), t("B", 0)], vec![t("A", 0)], vec![t("B", 1), fs("ab", Shape::S4(0), 608)]], s("history: type twice within a library, then one by one")));
+    out
 }
 
 // ------------------------------------------------------------------ use trees (`library!`)
